@@ -131,6 +131,77 @@ func c18spec(u alias.Unit, master core.SignedData, v2 bool) alias.Spec {
 
 const c18nBlocked = 3
 
+// c18gate is a deadliner whose first Add parks the calling goroutine (the store's own goroutine, inside the write)
+// until released.
+type c18gate struct {
+	entered, release chan struct{}
+	used             bool
+}
+
+func (g *c18gate) Add(core.Duty) core.DeadlineStatus {
+	if !g.used {
+		g.used = true
+		close(g.entered)
+		<-g.release
+	}
+	return core.DeadlineScheduled
+}
+func (*c18gate) C() <-chan core.Duty { return nil }
+
+// c18specCancelled: the caller's context ends while its write is in flight inside the store's goroutine (MemDB hands
+// writes to that goroutine and waits for the answer OR its context); Store returns the context's error, the caller -
+// for whom the call has failed - goes on to modify its object; what a later reader gets (the write may or may not have
+// taken effect) must not depend on that modification.
+func c18specCancelled(u alias.Unit, master core.SignedData) alias.Spec {
+	return alias.Spec{Path: "aggsigdb/MemDB.Store(cancelled-in-flight)", Type: u.Name, Modes: []string{alias.Input}, Run: func(w *alias.World) {
+		ctx, cancel := context.WithTimeout(context.Background(), 20*time.Second)
+		defer cancel()
+		g := &c18gate{entered: make(chan struct{}), release: make(chan struct{})}
+		d := NewMemDB(g)
+		runCtx, stop := context.WithCancel(context.Background())
+		defer stop()
+		go d.Run(runCtx)
+		duty := core.Duty{Slot: 123, Type: u.Duty}
+		val := alias.DeepCopy(master)
+		sub, err := core.SyncSubcommitteeIndex(duty.Type, val)
+		if err != nil {
+			w.Fail("subcommittee index: %v", err)
+			return
+		}
+		set := core.SignedDataSet{c18pk: val}
+		w.Input("stored-input", set)
+		sctx, scancel := context.WithCancel(ctx)
+		done := make(chan error, 1)
+		go func() { done <- d.Store(sctx, duty, set) }()
+		select {
+		case <-g.entered:
+		case err := <-done:
+			// the write never reached the store's goroutine: nothing to judge
+			close(g.release)
+			w.Outcome("Store(not in flight)", err)
+			scancel()
+			return
+		case <-time.After(10 * time.Second):
+			close(g.release)
+			scancel()
+			w.Fail("write did not reach the store's goroutine")
+			return
+		}
+		scancel()
+		w.Outcome("Store(cancelled)", <-done)
+		w.MutateInputs()
+		close(g.release)
+		if v, err := d.Await(ctx, duty, c18pk, sub); err == nil {
+			w.Result("reader-after-cancelled-store", v)
+		} else {
+			w.Outcome("Await(after cancelled store)", err)
+		}
+		stop()
+		<-d.quit
+		w.Held("db.data", d.data)
+	}}
+}
+
 func TestVerifC18AggSigDB(t *testing.T) {
 	r := enumx.New(t, "C18")
 	defer r.Finish()
@@ -139,6 +210,9 @@ func TestVerifC18AggSigDB(t *testing.T) {
 			continue
 		}
 		master := u.Gen().(core.SignedData)
+		if s := c18specCancelled(u, master); r.Mine() && alias.Wanted(r, s.Path, s.Type) {
+			alias.Run(r, s)
+		}
 		for _, v2 := range []bool{false, true} {
 			s := c18spec(u, master, v2)
 			if !r.Mine() {
